@@ -167,3 +167,80 @@ def check(facts, rep, tier, cfg):
 
     rep.rule("C11.R4", "the datagram receive buffer is a bounded queue whose capacity is the configured datagram_buffer_size")
     check_capacity_role(facts, rep, crate, "C11.R4", "Datagram", "Options.datagram_buffer_size", "datagram receive buffer")
+
+
+    # ---- R5 delivery order on the receiving side
+    rep.rule("C11.R5", "datagrams reach the application in queue order: they are taken off the bounded datagram queue one at a time, or through "
+                       "an intermediate store that is strictly first-in first-out (no store at all on the pinned tree)")
+    check_datagram_fifo(facts, rep, crate)
+
+
+_RECV_ONE = {"recv", "poll_recv", "try_recv", "blocking_recv"}
+_RECV_MANY = {"recv_many", "poll_recv_many"}
+_ORDERLESS = ("BinaryHeap<", "HashMap<", "HashSet<", "BTreeMap<", "BTreeSet<")
+_ORDERED = ("Vec<", "VecDeque<", "LinkedList<", "SmallVec<")
+_REORDER = {"swap_remove", "swap_remove_back", "swap_remove_front", "pop", "pop_back", "push_front", "sort", "sort_by", "sort_by_key",
+            "sort_unstable", "sort_unstable_by", "sort_unstable_by_key", "reverse", "swap", "rotate_left", "rotate_right", "insert",
+            "dedup", "dedup_by", "dedup_by_key", "retain", "retain_mut", "split_off", "truncate", "drain_filter", "extract_if"}
+
+
+def check_datagram_fifo(facts, rep, crate):
+    from an import Tracer, callee, walk, strip, const_eval
+    k = 0
+    for b in crate.bodies:
+        for bi, t in b.calls():
+            c = callee(t)
+            if not c or "Receiver::<Datagram>" not in c["path"].replace("frame::", "").replace("crate::", "") and \
+                    not ("mpsc" in c["path"] and "Receiver" in c["path"] and "Datagram" in c["path"]):
+                continue
+            where = "%s (%s)" % (loc_str(t["loc"]), b.path)
+            if c["name"] in _RECV_ONE:
+                k += 1
+                rep.ok("C11.R5", "receive/%s" % b.path.split("::{")[0], where, "%s: one datagram at a time, in queue order" % c["name"])
+            elif c["name"] in _RECV_MANY:
+                k += 1
+                rep.ok("C11.R5", "receive-batch/%s" % b.path.split("::{")[0], where, "%s: batch kept in queue order (store discipline checked below)" % c["name"], nontrivial=False)
+    rep.floor("C11.R5", "receive sites on the datagram queue", k, 1)
+    # intermediate stores: fields of in-crate types that hold Datagrams in a collection
+    stores = []
+    for dp, a in crate.adts.items():
+        if not a.get("local"):
+            continue
+        for v in a["variants"]:
+            for fl in v["fields"]:
+                ty = fl["ty"]
+                if "Datagram" in ty and "Receiver<" not in ty and "Sender<" not in ty and any(x in ty for x in _ORDERLESS + _ORDERED):
+                    stores.append((dp, fl["name"], ty))
+    if not stores:
+        rep.ok("C11.R5", "no-intermediate-store", "", "no in-crate type keeps Datagrams in a collection between the queue and the application", nontrivial=False)
+        return
+    for dp, fname, ty in stores:
+        key = "store/%s.%s" % (dp.split("::")[-1], fname)
+        if any(x in ty for x in _ORDERLESS):
+            rep.bad("C11.R5", key, dp, "datagrams are kept in `%s`, a collection without insertion order: they are handed to the application in a different order than they were sent" % ty)
+            continue
+        bad = None
+        uses = 0
+        for b in crate.bodies:
+            tr = None
+            for bi, t in b.calls():
+                c = callee(t)
+                if not c or not t["args"]:
+                    continue
+                tr = tr or Tracer(facts, b)
+                if not any(x.kind == "field" and x[2] == fname for x in walk(tr.operand(t["args"][0]))):
+                    continue
+                uses += 1
+                nm = c["name"]
+                if nm in _REORDER:
+                    bad = bad or (b, bi, "`%s` on the store" % nm)
+                if nm == "remove":
+                    idx = const_eval(strip(tr.operand(t["args"][1]))) if len(t["args"]) > 1 else None
+                    if idx != 0:
+                        bad = bad or (b, bi, "`remove(i)` with an index other than the constant 0")
+        if bad:
+            rep.bad("C11.R5", key, "%s (%s)" % (loc_str(bad[0].term(bad[1])["loc"]), bad[0].path),
+                    "the intermediate datagram store `%s` is not drained first-in first-out (%s): a burst of datagrams that outruns the reader is "
+                    "delivered out of order" % (fname, bad[2]))
+        else:
+            rep.ok("C11.R5", key, dp, "%d uses, only order-preserving operations (push_back / pop_front / remove(0) / extend / drain)" % uses)
